@@ -4,7 +4,7 @@
 set -e
 cd "$(dirname "$0")"
 export CARGO_NET_OFFLINE=true
-mkdir -p .build evidence replays /dev/shm/fclones-sim
+mkdir -p .build evidence replays /dev/shm/fclonessim
 python3 - <<'PY'
 import sys
 sys.path.insert(0, ".")
